@@ -312,6 +312,9 @@ _RAQ = "Panacea.Refine.AolQuery"
 R_AOLQ = [f"{_RA}.topicQuery_refines", f"{_RA}.writerQuery_refines", f"{_RA}.recordQuery_refines", f"{_RA}.itemQueries_nil"]
 _RPG = "Panacea.Refine.PnftGenesis"
 R_PNFTG = [f"{_RP}.exportGenesis_run", f"{_RP}.initGenesis_run", f"{_RP}.importPNFT_run"]
+_RDG = "Panacea.Refine.DidGenesis"
+R_DIDG = [f"{_RK}.initGenesis_run", f"{_RK}.initGenesis_abs", f"{_RK}.initGenesis_empty", f"{_RK}.listDIDs_run",
+          f"{_RK}.exportGenesis_run", f"{_RK}.genesis_roundtrip", f"{_RK}.initGenesis_order_independent"]
 REFINE = {
     "C18": ([_RC], R_COMPKEY),
     "C01": ([_RA, _RAQ], R_COMPKEY + R_AOL + R_AOLQ[2:3]),
@@ -325,9 +328,10 @@ REFINE = {
     "C11": ([_RD, _RK], R_DIDV[-4:] + R_DIDK[3:5]),
     "C03": ([_RD, _RK], R_DIDV[3:5] + R_DIDV[6:7] + R_DIDK),
     "C07": ([_RB], R_BURN),
-    "C08": ([_RP, _RPQ, _RPG], R_PNFTG + [f"{_RP}.getAllDenoms_run"]),
-    "C04": ([_RK], R_DIDK[2:]),
-    "C05": ([_RK], R_DIDK[3:]),
+    "C08": ([_RP, _RPQ, _RPG, _RDG], R_PNFTG + [f"{_RP}.getAllDenoms_run"] + R_DIDG),
+    "C09": ([_RDG], R_DIDG[:3] + R_DIDG[-1:]),
+    "C04": ([_RK, _RDG], R_DIDK[2:] + R_DIDG[-2:-1]),
+    "C05": ([_RK, _RDG], R_DIDK[3:] + R_DIDG[-2:-1]),
 }
 REFINE_TRUSTED = [
     "translator /verif/extract/code.go (Go → Lean `do`-blocks, statement by statement; anything it does not understand becomes `Go.unsupported`, which no refinement proof survives) and the meaning of its primitives lean/Panacea/Go/{Prelude,Lib}.lean (slices as lists with bounds checks that panic, `int` as unbounded Int, uint64 wrap-around, pointers as Option with panicking dereference, KV store as a sorted association list, bech32, the signature scheme and the protobuf codec as parameters — the codec with the two laws of LawfulProto and, for x/did, three facts about the encoding of documents (a length-prefixed value is never empty; the zero document encodes to the empty string; DIDDocument{Id: d} encodes to the bytes the model writes out), repeated message fields without nil elements (what protobuf decoding produces), decoded addresses never empty); for x/pnft the SDK's x/nft keeper is the hand-written lean/Panacea/Go/Nft.lean (five key spaces, SaveClass/UpdateClass/Mint/Burn/Transfer as in v0.47.12), `AccAddress(nil).String() = \"\"` is the hypothesis EncNil and the handler's block time is the model's `now`",
